@@ -1358,4 +1358,223 @@ theorem deliver_enabled (s : Sys) (h : Inv s) (h2 : Inv2 s) (hne : s.chan ≠ []
     · split <;> exact ⟨_, rfl⟩
     · exact ⟨_, rfl⟩
 
+/-! ### a shutdown signal reaches every running unit -/
+
+/-- before the first shutdown signal the cancel state is below the signal level -/
+def SigInv (d : DState) : Prop := d.signalCount = 0 → ∀ c, d.cancel = some c → c.rank < 3
+
+theorem beginCancel_sig (s : DState) (reason : CancelReason) (resp : Response) (hr : reason.rank < 3) (h : SigInv s) :
+    SigInv (beginCancel s reason resp).1 := by
+  unfold beginCancel
+  split
+  · exact h
+  · split
+    · intro _ c hc
+      simp only [Option.some.injEq] at hc
+      subst hc; exact hr
+    · exact h
+
+theorem beginCancel_count (s : DState) (reason : CancelReason) (resp : Response) :
+    (beginCancel s reason resp).1.signalCount = s.signalCount := by
+  unfold beginCancel; split
+  · rfl
+  · split <;> rfl
+
+theorem sigInv_core (d : DState) (e : DEvent) (st : DState) (resp : Response) (reply : Reply) (em : List Emitted)
+    (h : stepCore d e = .ok (st, resp, reply, em)) (hi : SigInv d) : SigInv st := by
+  have wc : ∀ (s1 : DState) (em0 : List Emitted) (reason : CancelReason) (rsp : Response),
+      withCancel s1 em0 reason rsp = (st, resp, reply, em) → reason.rank < 3 → SigInv s1 → SigInv st := by
+    intro s1 em0 reason rsp hw hr h1
+    unfold withCancel at hw
+    simp only [Prod.mk.injEq] at hw
+    obtain ⟨e1, _⟩ := hw
+    subst e1
+    exact beginCancel_sig s1 reason rsp hr h1
+  have same : st.cancel = d.cancel → st.signalCount = d.signalCount → SigInv st := by
+    intro h1 h2; unfold SigInv; rw [h1, h2]; exact hi
+  cases e <;> simp only [stepCore] at h
+  case closeRx i => simp only [Except.ok.injEq, Prod.mk.injEq] at h; obtain ⟨rfl, _⟩ := h; exact same rfl rfl
+  case scriptCloseRx => simp only [Except.ok.injEq, Prod.mk.injEq] at h; obtain ⟨rfl, _⟩ := h; exact same rfl rfl
+  case started i =>
+    split at h
+    · simp only [Except.ok.injEq, Prod.mk.injEq] at h; obtain ⟨rfl, _⟩ := h; exact hi
+    · split at h
+      · cases h
+      · simp only [Except.ok.injEq, Prod.mk.injEq] at h; obtain ⟨rfl, _⟩ := h; exact same rfl rfl
+  case retryStarted i a t => split at h <;> (simp only [Except.ok.injEq, Prod.mk.injEq] at h; obtain ⟨rfl, _⟩ := h; exact hi)
+  case attemptFailedWillRetry i r sl =>
+    split at h
+    · cases h
+    · simp only [Except.ok.injEq, Prod.mk.injEq] at h; obtain ⟨rfl, _⟩ := h; exact same rfl rfl
+  case finished i r sl =>
+    split at h
+    · cases h
+    · split at h
+      · simp only [Except.ok.injEq] at h
+        exact wc _ _ _ _ h (by decide) (by unfold SigInv; simp only [DState.afterFinish]; exact hi)
+      · simp only [Except.ok.injEq, Prod.mk.injEq] at h; obtain ⟨rfl, _⟩ := h
+        unfold SigInv; simp only [DState.afterFinish]; exact hi
+  case skipped i => simp only [Except.ok.injEq, Prod.mk.injEq] at h; obtain ⟨rfl, _⟩ := h; exact same rfl rfl
+  case scriptStarted a b =>
+    split at h
+    · simp only [Except.ok.injEq, Prod.mk.injEq] at h; obtain ⟨rfl, _⟩ := h; exact hi
+    · split at h
+      · cases h
+      · simp only [Except.ok.injEq, Prod.mk.injEq] at h; obtain ⟨rfl, _⟩ := h; exact same rfl rfl
+  case scriptFinished a res =>
+    split at h
+    · cases h
+    · split at h
+      · simp only [Except.ok.injEq] at h
+        exact wc _ _ _ _ h (by decide) (by unfold SigInv; exact hi)
+      · simp only [Except.ok.injEq, Prod.mk.injEq] at h; obtain ⟨rfl, _⟩ := h; exact same rfl rfl
+  case shutdown sg =>
+    split at h
+    · cases h
+    · simp only [Except.ok.injEq] at h
+      unfold withCancel at h
+      simp only [Prod.mk.injEq] at h
+      obtain ⟨e1, _⟩ := h
+      subst e1
+      intro hc
+      rw [beginCancel_count] at hc
+      simp at hc
+  case stop => split at h <;> (simp only [Except.ok.injEq, Prod.mk.injEq] at h; obtain ⟨rfl, _⟩ := h; first | exact hi | exact same rfl rfl)
+  case «continue» => split at h <;> (simp only [Except.ok.injEq, Prod.mk.injEq] at h; obtain ⟨rfl, _⟩ := h; first | exact hi | exact same rfl rfl)
+  case info => simp only [Except.ok.injEq, Prod.mk.injEq] at h; obtain ⟨rfl, _⟩ := h; exact hi
+  case reportCancel =>
+    simp only [Except.ok.injEq] at h
+    exact wc _ _ _ _ h (by decide) hi
+  case inputEnter => simp only [Except.ok.injEq, Prod.mk.injEq] at h; obtain ⟨rfl, _⟩ := h; exact hi
+
+theorem sigInv_step (d : DState) (e : DEvent) (d' : DState) (o : Out) (h : Dispatcher.step d e = .ok (d', o)) (hi : SigInv d) :
+    SigInv d' := by
+  unfold Dispatcher.step at h
+  split at h
+  · cases h
+  · rename_i r hr
+    obtain ⟨st, resp, reply, em⟩ := r
+    simp only [Except.ok.injEq, Prod.mk.injEq] at h
+    obtain ⟨h1, _⟩ := h
+    have hst : (finishStep st resp reply em).1 = st := by unfold finishStep; split <;> rfl
+    rw [hst] at h1; subst h1
+    exact sigInv_core d e st resp reply em hr hi
+
+/-- the request a shutdown signal is turned into: the signal itself the first time, "kill" the second -/
+def shutdownReqFor (d : DState) (sg : Sig) : ShutdownReq := if d.signalCount + 1 == 1 then .once sg else .twice
+
+/-- **a shutdown signal is broadcast to every registered unit** (first signal: that signal; second: kill) -/
+theorem shutdown_broadcast (d : DState) (sg : Sig) (d' : DState) (o : Out) (hi : SigInv d)
+    (h : Dispatcher.step d (.shutdown sg) = .ok (d', o)) (j : Nat) (hj : registered d j) :
+    (some j, Req.shutdown (shutdownReqFor d sg)) ∈ o.delivered := by
+  unfold Dispatcher.step at h
+  split at h
+  · cases h
+  · rename_i r hr
+    obtain ⟨st, resp, reply, em⟩ := r
+    simp only [Except.ok.injEq, Prod.mk.injEq] at h
+    obtain ⟨_, h2⟩ := h
+    subst h2
+    simp only [stepCore] at hr
+    split at hr
+    · cases hr
+    · rename_i hcount
+      simp only [Except.ok.injEq] at hr
+      unfold withCancel at hr
+      simp only [Prod.mk.injEq] at hr
+      obtain ⟨e1, e2, _, _⟩ := hr
+      -- the response is the signal request: `begin_cancel` does not swallow it
+      have hresp : resp = .cancelSignal (shutdownReqFor d sg) := by
+        rw [← e2]
+        unfold beginCancel shutdownReqFor
+        simp only
+        by_cases hfirst : d.signalCount = 0
+        · have hlt : cancelLt d.cancel (sigReason sg) = true := by
+            unfold cancelLt
+            cases hc : d.cancel with
+            | none => rfl
+            | some c =>
+              have := hi hfirst c hc
+              cases c <;> cases sg <;> simp_all [sigReason, CancelReason.rank]
+          simp [hfirst, hlt]
+        · have : (d.signalCount + 1 == 1) = false := by simp; omega
+          simp [this]
+      have hreg : registered st j := by
+        rw [← e1]
+        exact (registered_congr (beginCancel_reg _ _ _).1 (beginCancel_reg _ _ _).2 j).mpr hj
+      simp only [Out.withDirect]
+      apply List.mem_append_right
+      unfold finishStep
+      simp only [hresp, responseRequest]
+      exact broadcast_reaches st _ j hreg
+
+theorem sig_sys_step (s : Sys) (a : Act) (s' : Sys) (hi : SigInv s.d) (hs : step s a = some s') : SigInv s'.d := by
+  cases a with
+  | dispatch i =>
+    simp only [step] at hs
+    split at hs
+    · simp only [Option.some.injEq] at hs; subst hs; exact hi
+    · cases hs
+  | exitFinish i r sl =>
+    simp only [step] at hs
+    split at hs
+    · simp only [Option.some.injEq] at hs; subst hs; exact hi
+    · cases hs
+  | exitRetry i r sl =>
+    simp only [step] at hs
+    split at hs
+    · simp only [Option.some.injEq] at hs; subst hs; exact hi
+    · cases hs
+  | delayExpires i a t =>
+    simp only [step] at hs
+    split at hs
+    · simp only [Option.some.injEq] at hs; subst hs; exact hi
+    · cases hs
+  | recv i =>
+    simp only [step] at hs
+    split at hs
+    · cases hs
+    · split at hs
+      · simp only [Option.some.injEq] at hs; subst hs; exact hi
+      · split at hs <;> (simp only [Option.some.injEq] at hs; subst hs; exact hi)
+      · simp only [Option.some.injEq] at hs; subst hs; exact hi
+      · cases hs
+  | external e =>
+    simp only [step] at hs
+    split at hs
+    · split at hs
+      · cases hs
+      · rename_i d' o hd
+        simp only [Option.some.injEq] at hs; subst hs
+        exact sigInv_step s.d e d' o hd hi
+    · cases hs
+  | deliver =>
+    simp only [step] at hs
+    split at hs
+    · cases hs
+    · rename_i e rest hch
+      split at hs
+      · cases hs
+      · rename_i d' o hd
+        have := sigInv_step s.d e d' o hd hi
+        split at hs
+        · split at hs <;> (simp only [Option.some.injEq] at hs; subst hs; exact this)
+        · split at hs <;> (simp only [Option.some.injEq] at hs; subst hs; exact this)
+        · simp only [Option.some.injEq] at hs; subst hs; exact this
+
+theorem sig_run : ∀ (acts : List Act) (s s' : Sys), SigInv s.d → runActs s acts = some s' → SigInv s'.d := by
+  intro acts
+  induction acts with
+  | nil => intro s s' h hr; simp only [runActs, Option.some.injEq] at hr; subst hr; exact h
+  | cons a as ih =>
+    intro s s' h hr
+    simp only [runActs] at hr
+    split at hr
+    · cases hr
+    · rename_i s1 hs
+      exact ih s1 s' (sig_sys_step s a s1 h hs) hr
+
+theorem sigInv_init (n : Nat) (mf : MaxFail) : SigInv (Sys.init n mf).d := by
+  intro _ c hc; simp [Sys.init, DState.init] at hc
+
 end NextestModel.System
